@@ -9,9 +9,13 @@ import json, os, re, subprocess, sys, time, hashlib, shutil
 
 ROOT = "/verif"
 SPEC = f"{ROOT}/spec"
-HARNESS = f"{ROOT}/harness"
-BINDIR = f"{HARNESS}/target/debug"
-WORKROOT = f"{ROOT}/work"
+# Overridable for development sandboxes only (kv/mutrun.sh); registered commands never set these.
+HARNESS = os.environ.get("KV_HARNESS", f"{ROOT}/harness")
+BINDIR = os.environ.get("CARGO_TARGET_DIR", f"{HARNESS}/target") + "/debug"
+WORKROOT = os.environ.get("KV_WORK", f"{ROOT}/work")
+EVIDENCE = os.environ.get("KV_EVIDENCE", f"{ROOT}/evidence")
+REPO = os.environ.get("KV_REPO", "/repo")
+ONLY_GROUP = os.environ.get("KV_ONLY_GROUP") == "1"
 TLA_CP = "/opt/veriftools/tla/tla2tools.jar:/opt/veriftools/tla/CommunityModules-deps.jar"
 
 
@@ -64,15 +68,17 @@ def build(group=None):
     if _built:
         return
     lock = f"{HARNESS}/Cargo.lock"
-    if not os.path.exists(lock) or os.path.getmtime(lock) < os.path.getmtime("/repo/Cargo.lock"):
-        shutil.copy("/repo/Cargo.lock", lock)
+    if not os.path.exists(lock) or os.path.getmtime(lock) < os.path.getmtime(f"{REPO}/Cargo.lock"):
+        shutil.copy(f"{REPO}/Cargo.lock", lock)
     # serialise concurrent builds (several checks may run in parallel)
     import fcntl
     os.makedirs(WORKROOT, exist_ok=True)
     with open(f"{WORKROOT}/.build.lock", "w") as lk:
         fcntl.flock(lk, fcntl.LOCK_EX)
-        rc, out, dt = run(["cargo", "build", "--offline", "--quiet", "--workspace"], cwd=HARNESS, timeout=3600,
-                          env={"CARGO_NET_OFFLINE": "true"})
+        rc = 1
+        if not (ONLY_GROUP and group):
+            rc, out, dt = run(["cargo", "build", "--offline", "--quiet", "--workspace"], cwd=HARNESS, timeout=3600,
+                              env={"CARGO_NET_OFFLINE": "true"})
         if rc != 0 and group:
             # another group's driver may not compile against an edited tree: build only ours
             rc, out, dt = run(["cargo", "build", "--offline", "--quiet", "-p", f"kv-{group}"], cwd=HARNESS,
@@ -191,10 +197,15 @@ def read_lines(path):
 
 
 def load_findings():
-    p = f"{ROOT}/known_findings.json"
-    if not os.path.exists(p):
-        return {"findings": [], "fixed": []}
-    return json.load(open(p))
+    """known_findings.json (+ known_findings.d/*.json fragments, same shape) -- never written at run time."""
+    import glob
+    allf = {"findings": [], "fixed": []}
+    for p in [f"{ROOT}/known_findings.json"] + sorted(glob.glob(f"{ROOT}/known_findings.d/*.json")):
+        if os.path.exists(p):
+            d = json.load(open(p))
+            allf["findings"] += d.get("findings", [])
+            allf["fixed"] += d.get("fixed", [])
+    return allf
 
 
 class Result:
@@ -259,8 +270,8 @@ class Result:
             "violations": len(self.violations),
             "known_findings_hit": sorted(self.known_hits.keys()),
         }
-        os.makedirs(f"{ROOT}/evidence", exist_ok=True)
-        with open(f"{ROOT}/evidence/{self.pid}.json", "w") as f:
+        os.makedirs(EVIDENCE, exist_ok=True)
+        with open(f"{EVIDENCE}/{self.pid}.json", "w") as f:
             json.dump(ev, f, indent=1, sort_keys=True)
             f.write("\n")
         print(f"[{self.pid}] tier={self.tier} wall={wall:.1f}s violations={len(self.violations)} "
